@@ -3,7 +3,12 @@
     A case is a pair of binary64 bit patterns [a], [b] together with everything
     the real [rlib_f80] returned on [x = f80::from(a)], [y = f80::from(b)]
     (raw bytes as (sign/exponent word, significand word), f64 results as bit
-    patterns, booleans).
+    patterns, booleans) — and, in the group [OExt], what the relations, [min],
+    [max], [abs] returned on operands that are NOT images of binary64 values:
+    the extended-format results [m = x*y+x], [p = x*y], [q = x/y], [s = x+y]
+    against their own roundings through binary64 [n_e = f80::from(f64::from(e))]
+    (equal to [e], one 64-bit ulp away from it, an infinity or a zero when [e] is
+    outside the binary64 range) and against each other.
 
     [model_check]: the observation equals what the model computes (NaNs as a class).
     [spec_check]:  the observation satisfies the property, decided by exact
@@ -16,14 +21,32 @@ From RlibV Require Import Common.Batch C18.Model.
 Import ListNotations.
 Open Scope Z_scope.
 
-Inductive opk := OAll | OAdd | OSub | OMul | ODiv | ONeg | OChain | OConv | ORel | OMinMax | OAbs.
+Inductive opk := OAll | OAdd | OSub | OMul | ODiv | ONeg | OChain | OConv | ORel | OMinMax | OAbs | OExt.
 
 Definition opk_eqb (a b : opk) : bool :=
   match a, b with
   | OAll, OAll | OAdd, OAdd | OSub, OSub | OMul, OMul | ODiv, ODiv | ONeg, ONeg
-  | OChain, OChain | OConv, OConv | ORel, ORel | OMinMax, OMinMax | OAbs, OAbs => true
+  | OChain, OChain | OConv, OConv | ORel, ORel | OMinMax, OMinMax | OAbs, OAbs | OExt, OExt => true
   | _, _ => false
   end.
+
+(** everything the relations returned on one ordered pair (u, v) of extended-format operands *)
+Record relobs := mkRel {
+  r_lt : bool; r_le : bool; r_gt : bool; r_ge : bool; r_eq : bool;   (* u<v u<=v u>v u>=v u==v *)
+  r_pcmp : Z;                                   (* u.partial_cmp(v): 0 None, 1 Less, 2 Equal, 3 Greater *)
+  r_min : raw; r_max : raw                      (* u.min(v), u.max(v) *)
+}.
+
+(** the group [OExt]: with m = x*y+x, p = x*y, q = x/y, s = x+y (their raws are [o_mad], [o_mul], [o_div],
+    [o_add] below) and n_e = f80::from(f64::from(e)) *)
+Record extobs := mkExt {
+  x_nmad : Z;                                   (* f64::from(m); those of p, q, s are o_nmul, o_ndiv, o_nadd *)
+  x_nm : raw; x_np : raw; x_nq : raw; x_ns : raw;            (* n_m n_p n_q n_s *)
+  x_m_nm : relobs; x_nm_m : relobs; x_p_np : relobs; x_np_p : relobs;
+  x_q_nq : relobs; x_nq_q : relobs; x_s_ns : relobs; x_ns_s : relobs;
+  x_m_p : relobs; x_p_s : relobs; x_s_q : relobs;            (* two unrelated extended values *)
+  x_am : raw; x_ap : raw; x_aq : raw; x_as : raw             (* m.abs() p.abs() q.abs() s.abs() *)
+}.
 
 Record obs := mkObs {
   o_wa : raw; o_wb : raw;                       (* f80::from(a), f80::from(b) *)
@@ -33,8 +56,26 @@ Record obs := mkObs {
   o_nadd : Z; o_nsub : Z; o_nmul : Z; o_ndiv : Z; o_nchain : Z;  (* f64::from of the results *)
   o_lt : bool; o_le : bool; o_gt : bool; o_ge : bool; o_eq : bool;
   o_pcmp : Z;                                   (* 0 None, 1 Less, 2 Equal, 3 Greater *)
-  o_min : raw; o_max : raw; o_abs : raw
+  o_min : raw; o_max : raw; o_abs : raw;
+  o_ext : extobs
 }.
+
+(** the ordered operand pairs of the group [OExt] (as OBSERVED raws) with what the relations returned on them *)
+Definition ext_pairs (o : obs) : list (raw * raw * relobs) :=
+  let e := o_ext o in
+  [ (o_mad o, x_nm e, x_m_nm e); (x_nm e, o_mad o, x_nm_m e);
+    (o_mul o, x_np e, x_p_np e); (x_np e, o_mul o, x_np_p e);
+    (o_div o, x_nq e, x_q_nq e); (x_nq e, o_div o, x_nq_q e);
+    (o_add o, x_ns e, x_s_ns e); (x_ns e, o_add o, x_ns_s e);
+    (o_mad o, o_mul o, x_m_p e); (o_mul o, o_add o, x_p_s e); (o_add o, o_div o, x_s_q e) ].
+(** (operand, what [abs] returned on it) *)
+Definition ext_abs (o : obs) : list (raw * raw) :=
+  let e := o_ext o in
+  [ (o_mad o, x_am e); (o_mul o, x_ap e); (o_div o, x_aq e); (o_add o, x_as e) ].
+(** (observed f64::from(e), observed f80::from(f64::from(e))) for e = m, p, q, s *)
+Definition ext_widened (o : obs) : list (Z * raw) :=
+  let e := o_ext o in
+  [ (x_nmad e, x_nm e); (o_nmul o, x_np e); (o_ndiv o, x_nq e); (o_nadd o, x_ns e) ].
 
 Inductive case := Case (op : opk) (a b : Z) (o : obs).
 
@@ -52,19 +93,42 @@ Definition model_check (c : case) : bool :=
   let y := widen (decode64 b) in
   let same r v := raw_same (encode80 v) r in
   let sameb n v := bits_same (encode64 v) n in
+  (* the four extended results are used by several groups: evaluated once ([vm_compute] is call by value);
+     [m] is [mad80 x y] unfolded so that the product is shared *)
+  let s := add80 x y in
+  let p := mul80 x y in
+  let q := div80 x y in
+  let m := add80 p x in
   on op OConv (same (o_wa o) x && same (o_wb o) y && sameb (o_back o) (narrow x))
-  && on op OAdd (let r := add80 x y in same (o_add o) r && sameb (o_nadd o) (narrow r))
+  && on op OAdd (same (o_add o) s && sameb (o_nadd o) (narrow s))
   && on op OSub (let r := sub80 x y in same (o_sub o) r && sameb (o_nsub o) (narrow r))
-  && on op OMul (let r := mul80 x y in same (o_mul o) r && sameb (o_nmul o) (narrow r))
-  && on op ODiv (let r := div80 x y in same (o_div o) r && sameb (o_ndiv o) (narrow r))
+  && on op OMul (same (o_mul o) p && sameb (o_nmul o) (narrow p))
+  && on op ODiv (same (o_div o) q && sameb (o_ndiv o) (narrow q))
   && on op ONeg (same (o_neg o) (neg80 x))
-  && on op OChain (let m := mad80 x y in let r := div80 m y in
+  && on op OChain (let r := div80 m y in
                    same (o_mad o) m && same (o_chain o) r && sameb (o_nchain o) (narrow r))
   && on op ORel (Bool.eqb (o_lt o) (lt80 x y) && Bool.eqb (o_le o) (le80 x y) && Bool.eqb (o_gt o) (gt80 x y)
                  && Bool.eqb (o_ge o) (ge80 x y) && Bool.eqb (o_eq o) (eq80 x y)
                  && (o_pcmp o =? pcmp_code (partial_cmp80 x y)))
   && on op OMinMax (same (o_min o) (min80 x y) && same (o_max o) (max80 x y))
-  && on op OAbs (same (o_abs o) (abs80 x)).
+  && on op OAbs (same (o_abs o) (abs80 x))
+  && on op OExt
+       (let nm := widen (narrow m) in let np := widen (narrow p) in
+        let nq := widen (narrow q) in let ns := widen (narrow s) in
+        (* the same model functions, applied to the model's own extended values *)
+        let rel u v r :=
+            Bool.eqb (r_lt r) (lt80 u v) && Bool.eqb (r_le r) (le80 u v) && Bool.eqb (r_gt r) (gt80 u v)
+            && Bool.eqb (r_ge r) (ge80 u v) && Bool.eqb (r_eq r) (eq80 u v)
+            && (r_pcmp r =? pcmp_code (partial_cmp80 u v))
+            && same (r_min r) (min80 u v) && same (r_max r) (max80 u v) in
+        let e := o_ext o in
+        sameb (x_nmad e) (narrow m)
+        && same (x_nm e) nm && same (x_np e) np && same (x_nq e) nq && same (x_ns e) ns
+        && rel m nm (x_m_nm e) && rel nm m (x_nm_m e) && rel p np (x_p_np e) && rel np p (x_np_p e)
+        && rel q nq (x_q_nq e) && rel nq q (x_nq_q e) && rel s ns (x_s_ns e) && rel ns s (x_ns_s e)
+        && rel m p (x_m_p e) && rel p s (x_p_s e) && rel s q (x_s_q e)
+        && same (x_am e) (abs80 m) && same (x_ap e) (abs80 p) && same (x_aq e) (abs80 q)
+        && same (x_as e) (abs80 s)).
 
 (** ** the specification, decided on integers *)
 
@@ -221,6 +285,31 @@ Definition raw_eqb (a b : raw) : bool := (fst a =? fst b) && (snd a =? snd b).
 Definition flip_raw (a : raw) : raw := (Z.lxor (fst a) 32768, snd a).
 Definition clear_raw (a : raw) : raw := (Z.land (fst a) 32767, snd a).
 
+(** the relations on one ordered pair of OBSERVED extended-format operands [u], [v]: the booleans and
+    [partial_cmp] are those of the exact order of the decoded values (NaN unordered, -0 = +0); [min]/[max] return
+    the operand that is the smaller / the larger one in that exact order (any of the two on a tie, as the
+    property allows; nothing is required when an operand is a NaN) *)
+Definition spec_rel (u v : raw) (r : relobs) : bool :=
+  let U := decode80 u in
+  let V := decode80 v in
+  let c := xcmp U V in
+  let either w := raw_eqb w u || raw_eqb w v in
+  valid_binary 64 16384 U && valid_binary 64 16384 V
+  && Bool.eqb (r_lt r) (cmp_in c [Lt]) && Bool.eqb (r_le r) (cmp_in c [Lt; Eq])
+  && Bool.eqb (r_gt r) (cmp_in c [Gt]) && Bool.eqb (r_ge r) (cmp_in c [Gt; Eq])
+  && Bool.eqb (r_eq r) (cmp_in c [Eq]) && (r_pcmp r =? pcmp_code c)
+  && match c with
+     | Some Lt => raw_eqb (r_min r) u && raw_eqb (r_max r) v
+     | Some Gt => raw_eqb (r_min r) v && raw_eqb (r_max r) u
+     | Some Eq => either (r_min r) && either (r_max r)
+     | None => true
+     end.
+
+(** [abs] of an observed extended-format operand: same magnitude bits, and not below zero *)
+Definition spec_abs (u a : raw) : bool :=
+  if is_nan_sf (decode80 u) then true
+  else raw_eqb (clear_raw a) (clear_raw u) && cmp_in (xcmp (decode80 a) (S754_zero false)) [Gt; Eq].
+
 Definition spec_check (c : case) : bool :=
   let '(Case op a b o) := c in
   let va := decode64 a in
@@ -259,7 +348,16 @@ Definition spec_check (c : case) : bool :=
   && on op OAbs
        (if is_nan_sf va then true
         else raw_eqb (clear_raw (o_abs o)) (clear_raw (o_wa o))
-             && cmp_in (xcmp (decode80 (o_abs o)) (S754_zero false)) [Gt; Eq]).
+             && cmp_in (xcmp (decode80 (o_abs o)) (S754_zero false)) [Gt; Eq])
+  (* relations on extended-format operands: judged on the OBSERVED raw operands only *)
+  && on op OExt
+       (* f64::from(m) is the correct rounding of the observed m (those of p, q, s: groups OMul, ODiv, OAdd);
+          each n_e is the exact widening of the observed f64::from(e) *)
+       (valid_binary 64 16384 (decode80 (o_mad o))
+        && spec_round 53 1024 (decode80 (o_mad o)) (decode64 (x_nmad (o_ext o)))
+        && forallb (fun t => let '(n, w) := t in spec_widen (decode64 n) w) (ext_widened o)
+        && forallb (fun t => let '(u, v, r) := t in spec_rel u v r) (ext_pairs o)
+        && forallb (fun t => let '(u, a) := t in spec_abs u a) (ext_abs o)).
 
 (** what the model computes on the input of a case (for replay files) *)
 Definition explain (c : case) :=
@@ -273,7 +371,16 @@ Definition explain (c : case) :=
     [encode64 (narrow x); encode64 (narrow (add80 x y)); encode64 (narrow (sub80 x y));
      encode64 (narrow (mul80 x y)); encode64 (narrow (div80 x y)); encode64 (narrow (chain80 x y))]),
    ("lt,le,gt,ge,eq,pcmp"%string, [lt80 x y; le80 x y; gt80 x y; ge80 x y; eq80 x y], pcmp_code (partial_cmp80 x y)),
-   ("min,max,abs"%string, [encode80 (min80 x y); encode80 (max80 x y); encode80 (abs80 x)])).
+   ("min,max,abs"%string, [encode80 (min80 x y); encode80 (max80 x y); encode80 (abs80 x)]),
+   ("ext: f64(m); n_m,n_p,n_q,n_s; (lt,le,gt,ge,eq,pcmp,min,max) of (m,n_m),(n_m,m),(p,n_p),(n_p,p),(q,n_q),(n_q,q),(s,n_s),(n_s,s),(m,p),(p,s),(s,q); abs m,p,q,s"%string,
+    (let m := mad80 x y in let p := mul80 x y in let q := div80 x y in let s := add80 x y in
+     let nm := widen (narrow m) in let np := widen (narrow p) in
+     let nq := widen (narrow q) in let ns := widen (narrow s) in
+     let rel u v := ([lt80 u v; le80 u v; gt80 u v; ge80 u v; eq80 u v], pcmp_code (partial_cmp80 u v),
+                     encode80 (min80 u v), encode80 (max80 u v)) in
+     (encode64 (narrow m), [encode80 nm; encode80 np; encode80 nq; encode80 ns],
+      [rel m nm; rel nm m; rel p np; rel np p; rel q nq; rel nq q; rel s ns; rel ns s; rel m p; rel p s; rel s q],
+      [encode80 (abs80 m); encode80 (abs80 p); encode80 (abs80 q); encode80 (abs80 s)])))).
 
 (** ** literals of the batch files
     Decimal [Z] literals of 20 digits cost about 1 ms each to parse; primitive-integer literals
@@ -281,3 +388,33 @@ Definition explain (c : case) :=
     (Only the batch files use these; no theorem mentions primitive integers.) *)
 Definition W (hi lo : int) : Z := Z.shiftl (Uint63.to_Z hi) 32 + Uint63.to_Z lo.
 Definition RW (se hi lo : int) : raw := (Uint63.to_Z se, W hi lo).
+(** The group [OExt] repeats raws: [min]/[max] return one of their operands, [n_e] often is [e], [abs e] is [e]
+    for a non-negative [e].  The printer writes such a raw as a back-reference to the operand ([SU]: first, [SV]:
+    second) when the executor printed the very same two words, and in full ([SR]) otherwise — a lossless
+    abbreviation of the observation line, resolved here. *)
+Inductive rsel := SU | SV | SR (se hi lo : int).
+Definition pick (u v : raw) (s : rsel) : raw :=
+  match s with SU => u | SV => v | SR se hi lo => RW se hi lo end.
+(** one [relobs] on the pair (u, v) from the executor's relation code
+    [u<v] + 2[u<=v] + 4[u>v] + 8[u>=v] + 16[u==v] + 32*partial_cmp and the raws of min, max *)
+Inductive rlit := RL (code : int) (mn mx : rsel).
+Definition rel_of (u v : raw) (l : rlit) : relobs :=
+  let '(RL code mn mx) := l in
+  let c := Uint63.to_Z code in
+  mkRel (Z.testbit c 0) (Z.testbit c 1) (Z.testbit c 2) (Z.testbit c 3) (Z.testbit c 4) (Z.shiftr c 5)
+        (pick u v mn) (pick u v mx).
+(** the whole observation line, in the order the executor prints it *)
+Definition OBS (wa wb add sub mul div neg mad chain : raw) (back nadd nsub nmul ndiv nchain : Z)
+    (lt le gt ge eq : bool) (pc : Z) (mn mx ab : raw)
+    (nmad : Z) (snm snp snq sns : rsel)
+    (m_nm nm_m p_np np_p q_nq nq_q s_ns ns_s m_p p_s s_q : rlit) (sam sap saq sas : rsel) : obs :=
+  let nm := pick mad mad snm in
+  let np := pick mul mul snp in
+  let nq := pick div div snq in
+  let ns := pick add add sns in
+  mkObs wa wb add sub mul div neg mad chain back nadd nsub nmul ndiv nchain lt le gt ge eq pc mn mx ab
+    (mkExt nmad nm np nq ns
+       (rel_of mad nm m_nm) (rel_of nm mad nm_m) (rel_of mul np p_np) (rel_of np mul np_p)
+       (rel_of div nq q_nq) (rel_of nq div nq_q) (rel_of add ns s_ns) (rel_of ns add ns_s)
+       (rel_of mad mul m_p) (rel_of mul add p_s) (rel_of add div s_q)
+       (pick mad mad sam) (pick mul mul sap) (pick div div saq) (pick add add sas)).
